@@ -315,7 +315,9 @@ def fs_case(draw, tier, shard=0, nshards=1):
     h1 = lattice_h1(*lat)
     t = draw(trial_and_walker(n, nelec, h1))
     return {"lattice": list(lat), "nelec": list(nelec), "trial": t, "U": draw(st.sampled_from([1.0, 4.0, 8.0])), "U1": draw(st.sampled_from([0.25, 1.0, 2.0])), "nn": nn,
-            "seed": draw(st.integers(0, 2**31 - 1)), "dt": draw(st.sampled_from([0.01, 0.05])), "steps": draw(st.integers(1, 3)), "nw": draw(st.sampled_from([3, 6]))}
+            "seed": draw(st.integers(0, 2**31 - 1)), "dt": draw(st.sampled_from([0.01, 0.05])), "steps": draw(st.integers(1, 3)), "nw": draw(st.sampled_from([3, 6])),
+            # open boundary (one bond of the ring removed): the number of bonds then differs from the number of sites
+            "open": draw(st.booleans())}
 
 
 def fs_body(ctx, case):
@@ -326,7 +328,10 @@ def fs_body(ctx, case):
     trial, wd, C = build_cpmc_trial(n, nelec, t)
     nw, dt = int(case["nw"]), float(case["dt"])
     nn = bool(case["nn"])
-    ctx.case(case, nontrivial=True, classes=["fast-vs-slow:" + ("nn" if nn else "onsite"), "fast-vs-slow:" + t["trial_kind"], f"steps={case['steps']}"])
+    if case.get("open") and lat == "chain" and n >= 3:
+        h1 = np.array(h1)
+        h1[0, n - 1] = h1[n - 1, 0] = 0.0
+    ctx.case(case, nontrivial=True, classes=["fast-vs-slow:" + ("nn" if nn else "onsite"), "fast-vs-slow:" + t["trial_kind"], f"steps={case['steps']}", "fast-vs-slow:" + ("open-chain" if (case.get("open") and lat == "chain" and n >= 3) else "periodic")])
     adj = -h1
     neighbors = tuple((i, j) for i in range(n) for j in range(i + 1, n) if adj[i, j] != 0)
     if nn:
